@@ -12,7 +12,7 @@ from .effects import Effects
 from .lin import Lin, Sym
 from .rules_C16 import CACHE_KINDS, check_counter, classify
 from .shared_state import (int_constants, keyed_memo_key_mismatch, CacheInfo, SharedWrite, World, history_definite, recognise_cache, recognise_global_memo, recognise_slot_memo,
-                           value_dependencies, write_is_definite, stale_slot_read, generic_setter, resets_whole)
+                           value_dependencies, write_is_definite, stale_slot_read, generic_setter, resets_whole, changed_and_restored_without_finally)
 
 
 # ---------------------------------------------------------------------------------
@@ -439,6 +439,12 @@ def check_shared_writes(ctx, w: World, om: OriginModel) -> None:
     an object carry extra['owners'] = the API functions from which the write is reached"""
     caches, counters, bad = classify(ctx, w, threads=False)
 
+    # ---- C17.1: module-level state changed and put back without try/finally -----------------------------------------------
+    for fq in sorted(w.reach):
+        leak = changed_and_restored_without_finally(w.model, fq)
+        if leak:
+            fi_ = w.model.funcs[fq]
+            ctx.bad("C17.1", f"{fq} can leave module-level state changed when an exception passes through it", f"{fi_.rel}:{fi_.node.lineno}", leak)
     # ---- C17.1 ---------------------------------------------------------------------------------------------
     by_obj: Dict[str, List[SharedWrite]] = {}
     for sw in bad:
